@@ -131,13 +131,21 @@ def derive_vclock(rep, name):
     anchor = "func Now() Time {\n\tsec, nsec, mono := now()\n"
     if src.count(anchor) != 1:
         infra("time.Now anchor not found")
-    out = src.replace(anchor, anchor + "\tsec += verifWallOffset\n")
+    out = src.replace(anchor, anchor + "\tif verifFixedSec != 0 {\n\t\tsec, nsec = verifFixedSec, verifFixedNsec\n\t}\n")
     dst = os.path.join(BUILD, "derived", name, "time.go")
     write_if_changed(dst, out)
     rep[p] = dst
-    off = os.path.join(BUILD, "derived", name, "verif_offset.go")
-    write_if_changed(off, "package time\n\nvar verifWallOffset int64\n\n// VerifSetWallOffset shifts the wall clock reading of Now() by sec seconds.\nfunc VerifSetWallOffset(sec int64) { verifWallOffset = sec }\n\nfunc VerifWallOffset() int64 { return verifWallOffset }\n")
-    rep[os.path.join(GOROOT, "src/time/verif_offset.go")] = off
+    off = os.path.join(BUILD, "derived", name, "verif_clock.go")
+    write_if_changed(off, """package time
+
+var verifFixedSec int64
+var verifFixedNsec int32
+
+// VerifSetWallClock freezes the wall-clock reading of Now() at the given unix time
+// (sec == 0 releases it). Monotonic readings, timers and tickers are unaffected.
+func VerifSetWallClock(sec int64, nsec int32) { verifFixedSec, verifFixedNsec = sec, nsec }
+""")
+    rep[os.path.join(GOROOT, "src/time/verif_clock.go")] = off
 
 
 def derive_crash(rep, name):
